@@ -356,3 +356,22 @@ Definition user_wf (user : option config) : bool :=
 (* the repaired code without the repairs: what the pinned tree computed (regression witnesses) *)
 Definition linter_config_pinned (provided : rules_map) (user : option config) : rules_map :=
   load_config_pinned provided user.
+
+(* consistency of the two tables the decision rests on (regenerated into Gen/RulesTable.v):
+   every bundled rule has a provided level in {ignore, warning, error}, every provided rule is a
+   bundled rule, rule names are unique over all categories, no key is repeated, and the provided
+   configuration has no "default" entries of its own *)
+Definition level_ok (l : str) : bool := str_eqb l s_ignore || str_eqb l s_warning || str_eqb l s_error.
+
+Definition s_default : str := [100;101;102;97;117;108;116].   (* "default" *)
+
+Definition tables_ok (bundled : list (str * str)) (provided : rules_map) : bool :=
+  rules_map_wf provided
+  && keys_nodup (provided_conf_levels provided)
+  && forallb (fun ct => match rule_level_of provided (fst ct) (snd ct) with
+                        | Some l => level_ok l
+                        | None => false
+                        end) bundled
+  && forallb (fun cr => forallb (fun tr => pair_in (fst cr) (fst tr) bundled) (snd cr)) provided
+  && forallb (fun cr => negb (str_eqb (fst cr) s_default)
+                        && forallb (fun tr => negb (str_eqb (fst tr) s_default)) (snd cr)) provided.
